@@ -15,6 +15,11 @@ import (
 func runSeq(c SeqCase) SeqOut {
 	// ONE middleware instance for all requests
 	return runSeqCore(c, func(work http.HandlerFunc) (http.Handler, func(int) string, error) {
-		return handler.TimeoutHandler(time.Duration(c.DurNs))(work), func(int) string { return "/x" }, nil
+		var next http.Handler = work
+		if c.Rec {
+			// Timeout -> Recover -> work, the order of the engine's chain
+			next = underRecover(handler.RecoverHandler, work)
+		}
+		return handler.TimeoutHandler(time.Duration(c.DurNs))(next), func(int) string { return "/x" }, nil
 	})
 }
